@@ -32,6 +32,15 @@ CHECKS = {
             'prefix. LIMIT probed up to 10^30.',
             'Trusted: vlib/refmodel.py (one stable pass per key), Python sort; sort keys limited to comparable scalars.',
             'DESIGN.md section 4, C03'),
+    'C04': ('run-time enumeration of the OPERATORS / FUNCTIONS registries x parameter bindings (declared type, subtypes, untyped) x value pools with NULLs; conformance predicate on every value, rendering and numberify smoke oracle; COALESCE type pairs; every column and attribute chain of the ledger tables on Hypothesis-generated ledgers',
+            'Every registered overload is called over cross products of per-type value pools with NULL in every position; each '
+            'value must be NULL or conform to the announced datatype, the result must render as text and CSV and numberify, '
+            'and no TypeError / AttributeError may escape (domain errors are counted). COALESCE is probed over all ordered type '
+            'pairs. On generated ledgers every column of every table and every attribute chain of the structured types to '
+            'depth 3 is selected, also under OPEN/CLOSE/CLEAR (postings without metadata). Overloads that never produced a '
+            'non-NULL value are listed in the evidence.',
+            'Trusted: the conformance predicate in checks/c04.py; value pools are small fixed sets per type.',
+            'DESIGN.md section 4, C04'),
     'C05': ('enumerated single-rule violations (~1000 statements incl. the complement of the operator/function typing table) expecting a ProgrammingError-family rejection; Hypothesis well-formed programs expecting acceptance; mutated / token-soup texts with exception bucketing; location-span and rendering checks',
             'Both directions of "accepted exactly when": generated well-formed statements (text and AST) must compile, and an '
             'enumerated catalogue of statements each breaking one rule must be rejected with ParseError / CompilationError / '
